@@ -135,6 +135,14 @@ def acc_way(draw, hosts, cv_ok=True):
     if host == "batch":
         w["incr"] = draw(st.booleans())
         w["part"] = draw(partition(ACC_MAX_CHAINED if (cv and w["incr"]) else 20))
+    elif host == "transport_multi":
+        # 2-5 cells, no dispersion/diffusion: every shift is one integration per cell plus the documented half steps of the
+        # inflow cell (first_c: cell 1 for forward, the last cell for backward flow) -> at most 2 chained integrations per shift
+        w["incr"] = True
+        w["cells"] = draw(st.integers(2, 5))
+        w["flow"] = draw(st.sampled_from(["forward", "back"]))
+        w["bc"] = draw(st.sampled_from(["flux flux", "flux flux", "closed closed"]))
+        w["part"] = {"type": "equal", "n": draw(st.integers(1, (ACC_MAX_CHAINED // 2) if cv else (RK_MAX_CHAINED // 2)))}
     else:
         w["incr"] = True
         const = host == "transport_const"
@@ -284,7 +292,7 @@ def cf_case(draw):
         base = draw(cg.logu(1e-3, 0.3, 3))
         sol[e] = float("%.4g" % (base + 1.5 * need.get(e, 0.0) / case["water"]))
     case["sol"] = sol
-    hosts = ["batch", "batch", "batch", "advection", "transport_flux", "transport_const"]
+    hosts = ["batch", "batch", "batch", "advection", "transport_flux", "transport_const", "transport_multi", "transport_multi"]
     if fam == "approach_c":
         hosts = ["batch"]                # the closed form needs a closed cell
     case["ways"] = draw(ways(hosts, case["tol"], case_scale(case)))
@@ -456,11 +464,17 @@ def render(case, w, nsat=None):
     else:
         n = w["part"]["n"]
         dt = T / n
-        parts.append(solution_block(case, "0-2"))
+        nc = w["cells"] if host == "transport_multi" else 1
+        parts.append(solution_block(case, "0-%d" % (nc + 1)))
         parts.append("END")
-        parts.append(kinetics_block(case, w))
+        parts.append(kinetics_block(case, w, "1-%d" % nc if nc > 1 else "1"))
         parts.append("INCREMENTAL_REACTIONS true")
-        if host == "advection":
+        if host == "transport_multi":
+            parts.append("TRANSPORT\n -cells %d\n -shifts %d\n -time_step %s\n -initial_time 0\n -flow_direction %s\n -boundary_conditions %s\n"
+                         " -lengths 1\n -dispersivities 0\n -diffusion_coefficient 0\n -correct_disp false\n -stagnant 0\n -multi_d false\n"
+                         " -implicit false\n -thermal_diffusion 1 0\n -punch_cells 1-%d\n -punch_frequency 1\n -print_cells 1\n -print_frequency 1000\n"
+                         " -warnings false" % (nc, n, cg.fmt(dt), w["flow"], w["bc"], nc))
+        elif host == "advection":
             parts.append("ADVECTION\n -cells 1\n -shifts %d\n -time_step %s\n -initial_time 0\n -punch_cells 1\n -punch_frequency 1\n"
                          " -print_cells 1\n -print_frequency 1000\n -warnings false" % (n, cg.fmt(dt)))
         else:
@@ -500,8 +514,8 @@ def exact(case, t, n0=None):
     return [a, b0 * math.exp(-k2 * t) + m0 * k1 * g]
 
 
-def run_way(case, w, nsat=None):
-    """-> (rows, initial) rows: dict per punched reaction row; raises Discard on engine errors"""
+def run_way(case, w, nsat=None, cell=1, all_cells=False):
+    """-> (rows, initial) rows: dict per punched reaction row of `cell`; raises Discard on engine errors"""
     I = lib.fresh("phreeqc.dat")
     try:
         rc = I.run_string(render(case, w, nsat))
@@ -521,10 +535,22 @@ def run_way(case, w, nsat=None):
     else:
         init = [r for r in rows if r["state"] == "i_soln" and r["soln"] == 0]
         st_ = "advect" if w["host"] == "advection" else "transp"
-        reac = [r for r in rows if r["state"] == st_ and r["soln"] == 1 and r["step"] >= 1]
+        reac = [r for r in rows if r["state"] == st_ and r["soln"] == cell and r["step"] >= 1]
     if len(init) != 1:
         raise Violation("rows", "expected one initial-solution row, got %d (%s)" % (len(init), w["host"]))
+    if all_cells:
+        return [(c, [r for r in rows if r["state"] == "transp" and r["soln"] == c and r["step"] >= 1])
+                for c in range(1, w["cells"] + 1)], init[0]
     return reac, init[0]
+
+
+def run_tracks(case, w, nsat=None):
+    """-> ([(label suffix, rows of one cell)], initial row): one track per cell of the column"""
+    if w["host"] == "transport_multi":
+        tr, init = run_way(case, w, nsat, all_cells=True)
+        return [("/cell%d" % c, rows) for c, rows in tr], init
+    reac, init = run_way(case, w, nsat)
+    return [("", reac)], init
 
 
 def close(a, b, rel, floor=0.0):
@@ -537,7 +563,8 @@ def integ_label(g):
 
 def way_label(w):
     g = w["integ"]
-    lab = "%s/%s/%s/%s" % (w["host"], w["part"]["type"], "incr" if w["incr"] else "cum", integ_label(g))
+    host = w["host"] + ("%d%s%s" % (w["cells"], w["flow"][0], w["bc"][0]) if w["host"] == "transport_multi" else "")
+    lab = "%s/%s/%s/%s" % (host, w["part"]["type"], "incr" if w["incr"] else "cum", integ_label(g))
     if g["type"] == "cvode":
         lab += "/steps%d" % g["steps"]
     return lab
@@ -564,6 +591,8 @@ def chained(w, reac, T):
     ncum = len(cum_times(w["part"], T))
     if w["host"] == "batch":
         return ncum if w["incr"] else 1
+    if w["host"] == "transport_multi":
+        return 2 * ncum       # by construction: no sub-mixes; the inflow cell integrates two half steps per shift
     dt = T / ncum
     n = 0
     for r in reac:            # inside transport every sub-mix is an integration of KIN_TIME seconds
@@ -601,101 +630,111 @@ def check_case(case, ctx, probe=None):
     nsat = None
     moved = 0.0
     worst, worst_what = 0.0, ""
+    nacc = 0
     for w in case["ways"]:
         if cf and fam == "approach_c" and nsat is None:
             # saturation amount = initial dissolved amount (exact echo of the input: conc * water) + dn
             nsat = case["sol"][case["p"]["el"]] * case["water"] + case["p"]["dn"]
-        lab = way_label(w)
+        wlab = way_label(w)
         try:
-            reac, init = run_way(case, w, nsat)
+            tracks, init = run_tracks(case, w, nsat)
         except Discard as d:
             ctx.event("way_discarded:%s" % d.why)
             if probe is not None:
-                probe.setdefault("discards", []).append((d.why, lab))
+                probe.setdefault("discards", []).append((d.why, wlab))
             continue
         cum = cum_times(w["part"], T)
-        if len(reac) != len(cum):
-            raise Violation("rows", "%s: %d reaction rows for %d steps" % (lab, len(reac), len(cum)))
+        for suffix, reac in tracks:
+            if len(reac) != len(cum):
+                raise Violation("rows", "%s%s: %d reaction rows for %d steps" % (wlab, suffix, len(reac), len(cum)))
         # ---- is this way inside a known-finding trigger class?  (by construction; chained integrations counted)
         klass = static_class(w, tol, scale)
-        nch = chained(w, reac, T)
+        nch = chained(w, tracks[0][1], T)
         if (klass == "cvodeA" and nch > ACC_MAX_CHAINED) or (klass == "rk" and nch > RK_MAX_CHAINED):
             klass = "K2_chained"
         acc = force_all or klass in ("rk", "cvodeA")
         if not acc:
             ctx.event("excluded_known:" + klass)
-        # ---- solute-balance residual reported by this run (only used for laws that read the solution)
-        closure = 0.0
-        if reads_solution and w["host"] == "batch":
-            for r in reac:
-                for e in els:
-                    ce = sum(fels[j].get(e, 0.0) for j in range(names))
-                    if ce > 0:
-                        res = (r["n_" + e] - init["n_" + e]) + sum((r["m%d" % j] - m_init[j]) * fels[j].get(e, 0.0) for j in range(names))
-                        closure = max(closure, abs(res) / ce)
-        bound = base_bound + 4.0 * closure
-        prev = list(m_init)
-        for i, (r, t) in enumerate(zip(reac, cum)):
-            ms = [r["m%d" % j] for j in range(names)]
-            ds = [r["d%d" % j] for j in range(names)]
-            # ---- amounts never negative
-            for j, m in enumerate(ms):
-                if not (m >= 0.0):
-                    raise Violation("negative_amount", "%s step %d: reactant %d amount %r" % (lab, i + 1, j, m))
-            # ---- time bookkeeping
-            tprev = cum[i - 1] if i else 0.0
-            if w["host"] == "batch":
-                want_kt = (t - tprev) if w["incr"] else t
-            else:
-                want_kt = None        # inside transport the last sub-step's length is an internal of the scheme
-            if not close(r["tt"], t, 1e-11):
-                raise Violation("total_time", "%s step %d: TOTAL_TIME %r, step list gives %r" % (lab, i + 1, r["tt"], t))
-            if not close(r["time"], t, 1e-11):
-                raise Violation("time_column", "%s step %d: -time %r, step list gives %r" % (lab, i + 1, r["time"], t))
-            if want_kt is not None and not close(r["kt"], want_kt, 1e-11, 1e-11 * T):
-                raise Violation("kin_time", "%s step %d: KIN_TIME %r, step list gives %r" % (lab, i + 1, r["kt"], want_kt))
-            if w["host"] == "advection" and not close(r["kt"], T / len(cum), 1e-11):
-                raise Violation("kin_time", "%s shift %d: KIN_TIME %r, time step %r" % (lab, i + 1, r["kt"], T / len(cum)))
-            # ---- closed form
-            if cf and acc:
-                ex = exact(case, t)
+        for suffix, reac in tracks:
+            lab = wlab + suffix
+            # ---- solute-balance residual reported by this run (only used for laws that read the solution)
+            closure = 0.0
+            if reads_solution and w["host"] == "batch":
+                for r in reac:
+                    for e in els:
+                        ce = sum(fels[j].get(e, 0.0) for j in range(names))
+                        if ce > 0:
+                            res = (r["n_" + e] - init["n_" + e]) + sum((r["m%d" % j] - m_init[j]) * fels[j].get(e, 0.0) for j in range(names))
+                            closure = max(closure, abs(res) / ce)
+            bound = base_bound + 4.0 * closure
+            prev = list(m_init)
+            for i, (r, t) in enumerate(zip(reac, cum)):
+                ms = [r["m%d" % j] for j in range(names)]
+                ds = [r["d%d" % j] for j in range(names)]
+                # ---- amounts never negative
+                for j, m in enumerate(ms):
+                    if not (m >= 0.0):
+                        raise Violation("negative_amount", "%s step %d: reactant %d amount %r" % (lab, i + 1, j, m))
+                # ---- time bookkeeping
+                tprev = cum[i - 1] if i else 0.0
+                if w["host"] == "batch":
+                    want_kt = (t - tprev) if w["incr"] else t
+                else:
+                    want_kt = None        # inside transport the last sub-step's length is an internal of the scheme
+                # (the row of the inflow cell of a multi-cell column is written between its two half steps and carries the time of
+                #  the first half, t - dt/2, in -time and TOTAL_TIME although its amounts are those at t: not asserted there)
+                inflow = w["host"] == "transport_multi" and suffix == "/cell%d" % (1 if w["flow"] == "forward" else w["cells"])
+                if inflow:
+                    pass
+                elif not close(r["tt"], t, 1e-11):
+                    raise Violation("total_time", "%s step %d: TOTAL_TIME %r, step list gives %r" % (lab, i + 1, r["tt"], t))
+                if not inflow and not close(r["time"], t, 1e-11):
+                    raise Violation("time_column", "%s step %d: -time %r, step list gives %r" % (lab, i + 1, r["time"], t))
+                if want_kt is not None and not close(r["kt"], want_kt, 1e-11, 1e-11 * T):
+                    raise Violation("kin_time", "%s step %d: KIN_TIME %r, step list gives %r" % (lab, i + 1, r["kt"], want_kt))
+                if w["host"] == "advection" and not close(r["kt"], T / len(cum), 1e-11):
+                    raise Violation("kin_time", "%s shift %d: KIN_TIME %r, time step %r" % (lab, i + 1, r["kt"], T / len(cum)))
+                # ---- closed form
+                if cf and acc:
+                    ex = exact(case, t)
+                    for j in range(names):
+                        d = abs(ms[j] - ex[j])
+                        if d / bound > worst:
+                            worst, worst_what = d / bound, "exact " + lab
+                        if probe is not None:
+                            probe.setdefault("exact", []).append((d / tol, (d - 4.0 * closure) / tol, lab, nch))
+                        elif d > bound:
+                            raise Violation("exact", "%s step %d (t=%r): reactant %d amount %r, exact %r, |diff| %.3e > 100*tol (+floor) = %.3e"
+                                            % (lab, i + 1, t, j, ms[j], ex[j], d, bound))
+                    if fam == "zero" and case["p"]["k"] * t >= m0 * 1.02 + 200 * tol and ms[0] != 0.0:
+                        raise Violation("exhausted", "%s step %d: exhausted at t*=%r but amount at t=%r is %r, not 0"
+                                        % (lab, i + 1, m0 / case["p"]["k"], t, ms[0]))
+                # ---- KIN_DELTA: change over this step (incremental, transport, advection) or since the start (cumulative)
+                base = prev if w["incr"] else m_init
                 for j in range(names):
-                    d = abs(ms[j] - ex[j])
-                    if d / bound > worst:
-                        worst, worst_what = d / bound, "exact " + lab
-                    if probe is not None:
-                        probe.setdefault("exact", []).append((d / tol, (d - 4.0 * closure) / tol, lab, nch))
-                    elif d > bound:
-                        raise Violation("exact", "%s step %d (t=%r): reactant %d amount %r, exact %r, |diff| %.3e > 100*tol (+floor) = %.3e"
-                                        % (lab, i + 1, t, j, ms[j], ex[j], d, bound))
-                if fam == "zero" and case["p"]["k"] * t >= m0 * 1.02 + 200 * tol and ms[0] != 0.0:
-                    raise Violation("exhausted", "%s step %d: exhausted at t*=%r but amount at t=%r is %r, not 0"
-                                    % (lab, i + 1, m0 / case["p"]["k"], t, ms[0]))
-            # ---- KIN_DELTA: change over this step (incremental, transport, advection) or since the start (cumulative)
-            base = prev if w["incr"] else m_init
-            for j in range(names):
-                if abs(ds[j] - (ms[j] - base[j])) > 1e-12 * scale:
-                    raise Violation("kin_delta", "%s step %d: KIN_DELTA %r but amount went %r -> %r" % (lab, i + 1, ds[j], base[j], ms[j]))
-            # ---- solute balance: what left the reactants arrived in the solution (C02 tolerance, rel 1e-6 of the inventory)
-            if w["host"] == "batch":
-                dm = [ms[j] - m_init[j] for j in range(names)]
-            elif w["host"] in ("advection", "transport_flux"):
-                dm = [ms[j] - prev[j] for j in range(names)]        # the cell was refilled with solution 0 in this shift
-            else:
-                dm = None                                            # constant boundaries exchange solutes
-            if dm is not None:
-                for e in els:
-                    before, after = init["n_" + e], r["n_" + e]
-                    gain = -sum(dm[j] * fels[j].get(e, 0.0) for j in range(names))
-                    inv = max(abs(before), abs(after)) + sum(abs(m_init[j]) * abs(fels[j].get(e, 0.0)) for j in range(names))
-                    if abs((after - before) - gain) > 1e-6 * inv + 1e-14:
-                        raise Violation("solute_balance", "%s step %d: %s in solution %r -> %r (change %.10e) but reactants released %.10e"
-                                        % (lab, i + 1, e, before, after, after - before, gain))
-            prev = ms
-        fin = [reac[-1]["m%d" % j] for j in range(names)]
-        moved = max(moved, max(abs(fin[j] - m_init[j]) for j in range(names)))
-        if acc:
-            finals.append((lab, fin, bound))
+                    if abs(ds[j] - (ms[j] - base[j])) > 1e-12 * scale:
+                        raise Violation("kin_delta", "%s step %d: KIN_DELTA %r but amount went %r -> %r" % (lab, i + 1, ds[j], base[j], ms[j]))
+                # ---- solute balance: what left the reactants arrived in the solution (C02 tolerance, rel 1e-6 of the inventory)
+                if w["host"] == "batch":
+                    dm = [ms[j] - m_init[j] for j in range(names)]
+                elif w["host"] in ("advection", "transport_flux"):
+                    dm = [ms[j] - prev[j] for j in range(names)]        # the cell was refilled with solution 0 in this shift
+                else:
+                    dm = None                                            # constant boundaries exchange solutes
+                if dm is not None:
+                    for e in els:
+                        before, after = init["n_" + e], r["n_" + e]
+                        gain = -sum(dm[j] * fels[j].get(e, 0.0) for j in range(names))
+                        inv = max(abs(before), abs(after)) + sum(abs(m_init[j]) * abs(fels[j].get(e, 0.0)) for j in range(names))
+                        if abs((after - before) - gain) > 1e-6 * inv + 1e-14:
+                            raise Violation("solute_balance", "%s step %d: %s in solution %r -> %r (change %.10e) but reactants released %.10e"
+                                            % (lab, i + 1, e, before, after, after - before, gain))
+                prev = ms
+            fin = [reac[-1]["m%d" % j] for j in range(names)]
+            moved = max(moved, max(abs(fin[j] - m_init[j]) for j in range(names)))
+            if acc:
+                finals.append((lab, fin, bound))
+        nacc += 1 if acc else 0
         classes.append("host=" + w["host"])
         classes.append("integ=" + (integ_label(w["integ"]) if klass in ("rk", "cvodeA") else "cvode:" + klass))
         classes.append("part=%s/%s" % (w["part"]["type"], "incr" if w["incr"] else "cum"))
@@ -722,10 +761,10 @@ def check_case(case, ctx, probe=None):
                                     % (j, T, finals[a][1][j], finals[a][0], finals[b_][1][j], finals[b_][0], d, bnd))
     pure_exhaustion = cf and fam == "zero" and case["p"]["k"] * min(cum_times(w["part"], T)[0] for w in case["ways"]) >= m0
     bmax = max(f[2] for f in finals)
-    nt = len(finals) >= 2 and moved > 1e-3 * m0 and bmax < 0.1 * moved and not pure_exhaustion
+    nt = nacc >= 2 and moved > 1e-3 * m0 and bmax < 0.1 * moved and not pure_exhaustion
     if cf and fam == "zero" and case["p"]["k"] * T > m0:
         classes.append("exhaustion_inside_interval")
-    classes.append("accuracy_ways=%d" % len(finals))
+    classes.append("accuracy_ways=%d" % nacc)
     classes.append("worst_diff/bound" + bucket(worst))
     if worst > 0.4 and probe is None and hasattr(ctx, "extra") and len(ctx.extra.setdefault("near_bound", [])) < 25:
         ctx.extra["near_bound"].append("%.2f %s tol=%g scale=%.3g %s" % (worst, fam, tol, scale, worst_what))
